@@ -358,7 +358,7 @@ type awEvents struct{ w *awWorld }
 func (e awEvents) Connect(addr net.Addr, id string, tx uint64) {
 	c := e.w.connOfAddr(addr)
 	if awConnOfID(id) != c {
-		e.w.flag("Connect logged with id %q for connection %d", id, c)
+		e.w.flag("O3: Connect logged with id %q for connection %d", id, c)
 	}
 	e.w.emit(c, "connect")
 }
@@ -370,7 +370,7 @@ func (e awEvents) Disconnect(addr net.Addr, id string, err error) {
 func (e awEvents) TCPRequest(addr net.Addr, id, reqAddr string) {
 	c := e.w.connOfAddr(addr)
 	if s := awConnOfReqAddr(reqAddr); s != c {
-		e.w.flag("TCP request %q sent on connection %d was handled as connection %d", reqAddr, s, c)
+		e.w.flag("O3: TCP request %q sent on connection %d was handled as connection %d", reqAddr, s, c)
 	}
 	e.w.emit(c, "tcpReq(%s)", awTok(reqAddr))
 }
@@ -380,7 +380,7 @@ func (e awEvents) TCPError(addr net.Addr, id, reqAddr string, err error) {}
 func (e awEvents) UDPRequest(addr net.Addr, id string, sessionID uint32, reqAddr string) {
 	c := e.w.connOfAddr(addr)
 	if s := awConnOfReqAddr(reqAddr); s != c {
-		e.w.flag("UDP request %q sent on connection %d was handled as connection %d", reqAddr, s, c)
+		e.w.flag("O3: UDP request %q sent on connection %d was handled as connection %d", reqAddr, s, c)
 	}
 	e.w.emit(c, "udpReq(%s)", awTok(reqAddr))
 }
